@@ -119,7 +119,7 @@ pub struct Window {
 pub struct Mon {
   pub phys: KeySet,
   pub out: KeySet,
-  pub in_effect: Vec<u16>,
+  pub in_effect: Vec<u32>,
   pub norepeat_window: bool,
   pub windows: Vec<Window>,
   pub suspect: KeySet,
@@ -220,7 +220,7 @@ impl Mon {
       if is_press {
         fired_model = info.fired(k, &phys_before);
         if let Some(i) = fired_model {
-          self.in_effect.push(i as u16);
+          self.in_effect.push(i as u32);
         }
       } else {
         self.in_effect.retain(|&i| !info.m(i as usize).from.contains(&k));
